@@ -7,6 +7,7 @@ SPEC = {
     'lean_modules': ['N2k.Props.Consts.C07', 'N2k.Props.C07'], 'props_files': ['N2k/Props/Consts/C07.lean', 'N2k/Props/C07.lean'],
     'translators': ['constants', 'pgn_tables'],
     'case_start': ['reset'],
+    'oracle_prefixes': ['C07:'],
     'asan_options': ':redzone=1024',   # Devices[-1] must land in a red zone (sizeof(tInternalDevice) < 1024)
     'timeout': 1500,
     'trusted_base': ["the theorems are the index/bound/lifetime facts of the receive-path models (C02 fast packet; C10 ISO-TP, C18 device "
